@@ -7,6 +7,7 @@
 import NakenVerif.Sim.Tms1000Pc
 import NakenVerif.Sim.I8008Proofs
 import NakenVerif.Sim.Lc3Proofs
+import NakenVerif.Sim.M6502Proofs
 
 namespace NakenVerif.C15
 open NakenVerif.Sim
@@ -159,5 +160,55 @@ example : (match Lc3.step (fun a => if a = 0 then 0x70 else 0)
       { reg := Vector.replicate 8 0xffff, pc := 0, psr := 0, stopRunning := false, showOn := false } with
     | .ok (o, _) => some (o.ret, o.writes) | .fault _ => none) =
     some (0, [(0x1fffe, 0xff), (0x1ffff, 0xff)]) := by decide
+
+/-! ### 6502 -/
+
+/-- **6502: one step is total, fault-free, keeps A, X, Y, SP in 0..255 and writes only below 2^16.**  For every such state, every
+    PC (any `int`), SR, `break_io` and memory content: the step returns 0 (BRK and undefined opcodes leave the loop and return 0
+    too), both regenerated 256-entry tables (`table_6502_opcodes`, the lengths `disasm_6502` returns) are indexed inside, the ranges hold
+    again, and every `ram_write8` address is below 0x10000 (the stack page 0x100 + SP, and effective addresses: over the regenerated
+    table every storing opcode uses a mode that `calc_address` masks to 16 bits). -/
+theorem m6502_step_total_no_fault (mem : Mem) (s : M6502.State) (h : M6502.Inv s) :
+    ∃ o m' b, M6502.step mem s = .ok (o, m', b) ∧ M6502.Inv o.state ∧ o.ret = 0 ∧ ∀ w ∈ o.writes, w.1 < 0x10000 :=
+  M6502.step_ok mem s h
+
+theorem m6502_invariant_established (s : M6502.State) (name : String) (v org : BitVec 32) (mb : M6502.MemB) :
+    M6502.Inv (M6502.reset s org) ∧ (M6502.Inv s → M6502.Inv (M6502.setReg s name v)) ∧
+      (M6502.Inv s → M6502.Inv (M6502.setPc s v)) ∧
+      (M6502.Inv s → M6502.Inv (M6502.pushApi s mb v).1 ∧ WOK 0x10000 mb.writes (M6502.pushApi s mb v).2.writes) :=
+  ⟨M6502.reset_inv s org, M6502.setReg_inv s name v, M6502.setPc_inv s v, M6502.pushApi_inv s mb v⟩
+
+theorem m6502_run_no_fault (n : Nat) (m : Mem) (s : M6502.State) (h : M6502.Inv s) :
+    ∃ r, M6502.runN m n s = .ok r ∧ M6502.Inv r.1 :=
+  M6502.runN_ok n m s h
+
+/-- **6502 (the simulator takes the instruction length from the disassembler): PC after a non-branching instruction = PC +
+    `disasm_6502` length.**  When `operand_exe` returns 0, the new PC is the PC it left (unchanged by non-branching instructions)
+    plus the regenerated disassembler length of the byte at the old PC in the memory after the instruction; and that length is at
+    most 3 for every first byte (the display loop's `bytes[16]`). -/
+theorem m6502_pc_after_non_branching (mem : Mem) (s : M6502.State) (e : M6502.Exe) (o : StepOut M6502.State) (m' : Mem)
+    (b : Option (BitVec 8)) (hrun : s.stopRunning = false)
+    (he : M6502.operandExe s { mem := mem, writes := [], brk := none } (mem s.pc) = .ok e) (hret : e.ret = 0)
+    (h : M6502.step mem s = .ok (o, m', b)) :
+    (∃ l, M6502.disLen m' s.pc = .ok l ∧ o.state.pc = e.state.pc + l ∧ m' = e.mem.mem) ∧
+      (∀ i : Fin 256, (Generated.SimTables.disasm6502Len[i.val]?).all (· ≤ 3) = true) :=
+  ⟨M6502.step_pc_non_branching mem s e o m' b hrun he hret h, M6502.disLen_le_3⟩
+
+/-- `Simulate6502::run` does not clear the static `stop_running`: an explicit input of the model (when set, nothing is executed) -/
+theorem m6502_stop_running_is_an_input (mem : Mem) (s : M6502.State) (h : s.stopRunning = true) :
+    M6502.step mem s = .ok ({ ret := 0, state := s, writes := [] }, mem, none) :=
+  M6502.step_stopped mem s h
+
+def m6502Edge : M6502.State :=
+  { a := 0xff, x := 0xff, y := 0xff, sr := 0, pc := 0xffff, sp := 0, cycleCount := 0, breakIo := 0xfffffff0,
+    stopRunning := false, showOn := false }
+
+/-- non-vacuity: JSR at PC = 0xffff with SP = 0 pushes to 0x100 and (wrapping) 0x1ff (the high byte of 0x10001 / 256 is narrowed to 0); `sta 0xffff,x`-style stores stay below 2^16;
+    LDA #imm at 0xffff leaves PC = 0x10001 (the simulator does not wrap the PC: as in the C++) -/
+example : (match M6502.step (fun a => if a = 0xffff then 0x20 else 0) m6502Edge with
+    | .ok (o, _, _) => some (o.state.pc, o.state.sp, o.writes) | .fault _ => none) =
+    some (0, 0xfe, [(0x100, 0x00), (0x1ff, 0x01)]) := by decide +kernel
+example : (match M6502.step (fun a => if a = 0xffff then 0xa9 else 0) m6502Edge with
+    | .ok (o, _, _) => some (o.state.pc, o.state.a) | .fault _ => none) = some (0x10001, 0) := by decide +kernel
 
 end NakenVerif.C15
